@@ -71,6 +71,21 @@ func convertSchema(schema *schema_j5pb.Field) (*Schema, error) {
 	case *schema_j5pb.Field_String_:
 		out.SchemaItem.Type = convertStringItem(t.String_)
 
+	case *schema_j5pb.Field_Key:
+		out.SchemaItem.Type = convertKeyItem(t.Key)
+
+	case *schema_j5pb.Field_Date:
+		out.SchemaItem.Type = formattedStringItem("date")
+
+	case *schema_j5pb.Field_Decimal:
+		out.SchemaItem.Type = formattedStringItem("number")
+
+	case *schema_j5pb.Field_Timestamp:
+		out.SchemaItem.Type = formattedStringItem("date-time")
+
+	case *schema_j5pb.Field_Bytes:
+		out.SchemaItem.Type = formattedStringItem("byte")
+
 	case *schema_j5pb.Field_Integer:
 		out.SchemaItem.Type = convertIntegerItem(t.Integer)
 
@@ -159,6 +174,31 @@ func convertStringItem(item *schema_j5pb.StringField) *StringItem {
 		out.MaxLength = Maybe(item.Rules.MaxLength)
 	}
 
+	return out
+}
+
+// formattedStringItem is the JSON form of the types which the codec encodes
+// as strings: dates, decimals, timestamps and (base64) bytes.
+func formattedStringItem(format string) *StringItem {
+	return &StringItem{
+		Format:  Some(format),
+		Example: Maybe(stringExample(&format)),
+	}
+}
+
+func convertKeyItem(item *schema_j5pb.KeyField) *StringItem {
+	out := &StringItem{}
+	if item.Format == nil {
+		return out
+	}
+	switch ft := item.Format.Type.(type) {
+	case *schema_j5pb.KeyFormat_Uuid:
+		return formattedStringItem("uuid")
+	case *schema_j5pb.KeyFormat_Id62:
+		out.Format = Some("id62")
+	case *schema_j5pb.KeyFormat_Custom_:
+		out.Pattern = Some(ft.Custom.Pattern)
+	}
 	return out
 }
 
